@@ -28,7 +28,7 @@ ASSUMPTIONS = [
     "solution graphs are forests (in-degree <= 1) whose nodes carry time and seg_id",
 ]
 REQUIRED_CLASSES = {
-    "quick": ["unique:empty_then_nonempty", "unique:multiseg", "bytrack:division",
+    "quick": ["unique:empty_then_nonempty", "unique:multiseg", "unique:non_contiguous", "bytrack:division",
               "bytrack:unused_detection"],
     "thorough": ["unique:empty_then_nonempty", "unique:multiseg", "bytrack:division",
                  "bytrack:unused_detection"],
@@ -60,7 +60,7 @@ def unique_inputs(draw):
     if dtype == "uint32":
         vals = [[v if v < 2**32 else v % 65521 + 1 for v in f] for f in vals]
     return {"multiseg": multiseg, "nh": nh, "nt": nt, "spatial": list(spatial),
-            "frames": vals, "dtype": dtype}
+            "frames": vals, "dtype": dtype, "layout": draw(st.sampled_from(["C", "C", "F", "moveaxis"]))}
 
 
 def probe_unique(inp) -> ProbeResult:
@@ -73,6 +73,14 @@ def probe_unique(inp) -> ProbeResult:
         full = arr.reshape((inp["nh"], inp["nt"], *spatial))
     else:
         full = arr.reshape((inp["nt"], *spatial))
+    # memory layout is not part of the contract: views / Fortran order must behave the same
+    layout = inp.get("layout", "C")
+    if layout == "F":
+        full = np.asfortranarray(full)
+        res.tags.append("unique:non_contiguous")
+    elif layout == "moveaxis" and inp["multiseg"]:
+        full = np.moveaxis(np.ascontiguousarray(np.moveaxis(full, 0, 1)), 0, 1)  # (t,h,..) stack viewed as (h,t,..)
+        res.tags.append("unique:non_contiguous")
     src = full.copy()
     try:
         out = ensure_unique_labels(full, multiseg=inp["multiseg"])
